@@ -15,4 +15,4 @@ git apply "$sd/patch.diff" || { echo "PATCH DOES NOT APPLY"; exit 1; }
 echo "--- build:"; go build ./... 2>&1 | tail -3
 echo "--- patched demo:"; go test -count=1 -run 'TestSeedDemo|TestSeed' "$pkg" 2>&1 | tail -6
 rm -f "$dest"
-echo "--- existing tests with patch:"; go test -count=1 -p 4 "$pkg" "$@" 2>&1 | tail -12
+echo "--- existing tests with patch (failing tests, then package verdicts):"; go test -count=1 -p 4 "$pkg" "$@" > /tmp/vs_$$.log 2>&1; grep -E "^\s*--- FAIL" /tmp/vs_$$.log | sort -u | head -20; grep -E "^(ok|FAIL|panic)" /tmp/vs_$$.log | head -12; rm -f /tmp/vs_$$.log
